@@ -7,10 +7,11 @@
       body_subtreemass[w, b]; the translated kernel's write is shown to be Model/Dyn.v's
       accumulation step and C02's tree_accumulate_sched_correct is instantiated.
    2. closed forms of the copy / reduction / finalisation kernels straight from their
-      translated bodies (meaninertia, invweight finalisations, acc0 norm, dampratio, ...),
-      non-negativity where the inputs are non-negative.
+      translated bodies (meaninertia, invweight finalisations, acc0 norm, dampratio, camera /
+      light references, the CONNECT anchor of eq_data), non-negativity where the inputs are
+      non-negative.
    3. batched-output indexing: for each of the 22 kernels the leading index of every write
-      (tid0 or tid0 rem shape0); two launch-site violations (_refuted).
+      (tid0 or tid0 rem the leading size of that output); writes stay in bounds.
    4. restore-state frame lemma: soundness of the abstract interpreter of Model/SetConst.v and
       its evaluation (vm_compute) on the extracted set_const stage sequence. *)
 From Coq Require Import ZArith Reals List Bool String Lia Lra Psatz Permutation.
@@ -397,20 +398,20 @@ Section Generic.
     unfold k__resolve_tendon_lengthspring. rd_nil.
     destruct (seqb (vget (ls (Z.rem w N) t) 0) (sneg (sofZ 1)) && seqb (vget (ls (Z.rem w N) t) 1) (sneg (sofZ 1))); reflexivity.
   Qed.
-  (* cameras: all three outputs are written at row  tid0 rem cam_pos0_out.shape[0] *)
-  Lemma compute_cam_pos0_spec w c bodyid targetid (cxpos cxmat xpos scom p0 pc0 m0 : Z -> Z -> list S) orc N :
-    k__compute_cam_pos0 w c bodyid targetid cxpos cxmat xpos scom p0 pc0 m0 orc N
-    = [mkW "cam_pos0_out" [Z.rem w N; c] KSet (VV (vsub (cxpos w c) (xpos w (bodyid c))));
-       mkW "cam_poscom0_out" [Z.rem w N; c] KSet
+  (* cameras / lights: each of the three outputs is written at row  tid0 rem ITS OWN leading size *)
+  Lemma compute_cam_pos0_spec w c bodyid targetid (cxpos cxmat xpos scom p0 pc0 m0 : Z -> Z -> list S) orc N1 N2 N3 :
+    k__compute_cam_pos0 w c bodyid targetid cxpos cxmat xpos scom p0 pc0 m0 orc N1 N2 N3
+    = [mkW "cam_pos0_out" [Z.rem w N1; c] KSet (VV (vsub (cxpos w c) (xpos w (bodyid c))));
+       mkW "cam_poscom0_out" [Z.rem w N2; c] KSet
            (VV (vsub (cxpos w c) (scom w (if Z.geb (targetid c) 0 then targetid c else bodyid c))));
-       mkW "cam_mat0_out" [Z.rem w N; c] KSet (VV (cxmat w c))].
+       mkW "cam_mat0_out" [Z.rem w N3; c] KSet (VV (cxmat w c))].
   Proof. unfold k__compute_cam_pos0. destruct (Z.geb (targetid c) 0); reflexivity. Qed.
-  Lemma compute_light_pos0_spec w c bodyid targetid (lxpos lxdir xpos scom p0 pc0 d0 : Z -> Z -> list S) orc N :
-    k__compute_light_pos0 w c bodyid targetid lxpos lxdir xpos scom p0 pc0 d0 orc N
-    = [mkW "light_pos0_out" [Z.rem w N; c] KSet (VV (vsub (lxpos w c) (xpos w (bodyid c))));
-       mkW "light_poscom0_out" [Z.rem w N; c] KSet
+  Lemma compute_light_pos0_spec w c bodyid targetid (lxpos lxdir xpos scom p0 pc0 d0 : Z -> Z -> list S) orc N1 N2 N3 :
+    k__compute_light_pos0 w c bodyid targetid lxpos lxdir xpos scom p0 pc0 d0 orc N1 N2 N3
+    = [mkW "light_pos0_out" [Z.rem w N1; c] KSet (VV (vsub (lxpos w c) (xpos w (bodyid c))));
+       mkW "light_poscom0_out" [Z.rem w N2; c] KSet
            (VV (vsub (lxpos w c) (scom w (if Z.geb (targetid c) 0 then targetid c else bodyid c))));
-       mkW "light_dir0_out" [Z.rem w N; c] KSet (VV (lxdir w c))].
+       mkW "light_dir0_out" [Z.rem w N3; c] KSet (VV (lxdir w c))].
   Proof. unfold k__compute_light_pos0. destruct (Z.geb (targetid c) 0); reflexivity. Qed.
 End Generic.
 
@@ -464,13 +465,30 @@ Proof. rewrite compute_actuator_acc0_spec. apply Forall_cons; [|apply Forall_nil
 (* dof_invweight0 finalisation *)
 Definition JNT_FREE := 0%Z.
 Definition JNT_BALL := 1%Z.
-Lemma finalize_dof_invweight0_spec w dofid dof_jntid jnt_type jnt_dofadr (A : Z -> Z -> R) out orc No Na :
+Definition MINVAL : R := 1 / 1000000000000000.
+Lemma MINVAL_pos : 0 < MINVAL. Proof. unfold MINVAL. lra. Qed.
+(* wp.max(mjMINVAL, mass) *)
+Lemma smax_Rmax (a b : R) : smax a b = Rmax a b.
+Proof.
+  unfold smax. sR. unfold Rmax. destruct (Rle_dec a b) as [L|L].
+  - destruct (Rltb a b) eqn:E; [reflexivity|]. apply Rltb_false in E. lra.
+  - replace (Rltb a b) with false; [reflexivity|]. symmetry. apply Rltb_false. lra.
+Qed.
+Lemma inv_mass_pos m : 0 < 1 / Rmax MINVAL m.
+Proof.
+  pose proof MINVAL_pos. pose proof (Rmax_l MINVAL m).
+  apply Rdiv_lt_0_compat; lra.
+Qed.
+Lemma finalize_dof_invweight0_spec w dofid body_simple (mass : Z -> Z -> R) dof_bodyid dof_jntid jnt_type jnt_dofadr
+      (A : Z -> Z -> R) out orc No Na Nm :
   let j := dof_jntid dofid in
   let adr := jnt_dofadr j in
   let a := Z.rem w Na in
-  k__finalize_dof_invweight0 w dofid dof_jntid jnt_type jnt_dofadr A out orc No Na
+  k__finalize_dof_invweight0 w dofid body_simple mass dof_bodyid dof_jntid jnt_type jnt_dofadr A out orc No Na Nm
   = [mkW "dof_invweight0_out" [Z.rem w No; dofid] KSet
-       (VS (if Z.eqb (jnt_type j) JNT_FREE
+       (VS (if Z.eqb (body_simple (dof_bodyid dofid)) 2
+            then 1 / Rmax MINVAL (mass (Z.rem w Nm) (dof_bodyid dofid))
+            else if Z.eqb (jnt_type j) JNT_FREE
             then (if Z.ltb dofid (adr + 3)
                   then THIRD * (A a (adr + 0)%Z + A a (adr + 1)%Z + A a (adr + 2)%Z)
                   else THIRD * (A a (adr + 3)%Z + A a (adr + 4)%Z + A a (adr + 5)%Z))
@@ -479,63 +497,103 @@ Lemma finalize_dof_invweight0_spec w dofid dof_jntid jnt_type jnt_dofadr (A : Z 
             else A a dofid))].
 Proof.
   cbv zeta. unfold k__finalize_dof_invweight0, JNT_FREE, JNT_BALL, THIRD.
-  destruct (Z.eqb (jnt_type (dof_jntid dofid)) 0).
-  - destruct (Z.ltb dofid (jnt_dofadr (dof_jntid dofid) + 3)); reflexivity.
-  - destruct (Z.eqb (jnt_type (dof_jntid dofid)) 1); reflexivity.
+  destruct (Z.eqb (body_simple (dof_bodyid dofid)) 2).
+  - rewrite <- smax_Rmax. reflexivity.
+  - destruct (Z.eqb (jnt_type (dof_jntid dofid)) 0).
+    + destruct (Z.ltb dofid (jnt_dofadr (dof_jntid dofid) + 3)); reflexivity.
+    + destruct (Z.eqb (jnt_type (dof_jntid dofid)) 1); reflexivity.
 Qed.
-Lemma finalize_dof_invweight0_nonneg w dofid dof_jntid jnt_type jnt_dofadr (A : Z -> Z -> R) out orc No Na :
+Lemma finalize_dof_invweight0_nonneg w dofid body_simple (mass : Z -> Z -> R) dof_bodyid dof_jntid jnt_type jnt_dofadr
+      (A : Z -> Z -> R) out orc No Na Nm :
   (forall i j, 0 <= A i j) ->
-  Forall vs_nonneg (k__finalize_dof_invweight0 w dofid dof_jntid jnt_type jnt_dofadr A out orc No Na).
+  Forall vs_nonneg (k__finalize_dof_invweight0 w dofid body_simple mass dof_bodyid dof_jntid jnt_type jnt_dofadr A out orc No Na Nm).
 Proof.
   intros HA. rewrite finalize_dof_invweight0_spec. apply Forall_cons; [|apply Forall_nil]. unfold vs_nonneg; cbn [w_val].
   pose proof THIRD_pos.
+  destruct (Z.eqb (body_simple (dof_bodyid dofid)) 2); [apply Rlt_le, inv_mass_pos|].
   repeat match goal with |- context [if ?c then _ else _] => destruct c end;
     try apply HA; apply Rmult_le_pos; try lra;
     repeat apply Rplus_le_le_0_compat; apply HA.
 Qed.
 
-(* body_invweight0 finalisation *)
-Definition MINVAL : R := 1 / 1000000000000000.
-Definition inv_fallback (t r : R) : R * R :=
-  if Rltb t MINVAL && Rltb MINVAL r then (r, r)
-  else if Rltb r MINVAL && Rltb MINVAL t then (t, t) else (t, r).
-Lemma finalize_body_invweight0_spec w b body_weldid (A : Z -> Z -> Z -> R) out orc No Na :
+(* body_invweight0 finalisation: (0,0) for the world and static bodies; (1/max(MINVAL, mass), 0)
+   for bodies compiled as body_simple == 2 (axis-aligned sliders only), as mj_setConst; else
+   the two means, a vanishing component staying what it is (no fallback) *)
+Lemma finalize_body_invweight0_spec w b body_weldid body_simple (mass : Z -> Z -> R) (A : Z -> Z -> Z -> R) out orc No Na Nm :
   let a := Z.rem w Na in
-  let t := THIRD * (A a b 0%Z + A a b 1%Z + A a b 2%Z) in
-  let r := THIRD * (A a b 3%Z + A a b 4%Z + A a b 5%Z) in
-  k__finalize_body_invweight0 w b body_weldid A out orc No Na
+  k__finalize_body_invweight0 w b body_weldid body_simple mass A out orc No Na Nm
   = [mkW "body_invweight0_out" [Z.rem w No; b] KSet
        (VV (if Z.eqb b 0 || Z.eqb (body_weldid b) 0 then [0; 0]
-            else [fst (inv_fallback t r); snd (inv_fallback t r)]))].
+            else if Z.eqb (body_simple b) 2 then [1 / Rmax MINVAL (mass (Z.rem w Nm) b); 0]
+            else [THIRD * (A a b 0%Z + A a b 1%Z + A a b 2%Z); THIRD * (A a b 3%Z + A a b 4%Z + A a b 5%Z)]))].
 Proof.
-  cbv zeta. unfold k__finalize_body_invweight0, inv_fallback, MINVAL, THIRD.
-  destruct (Z.eqb b 0 || Z.eqb (body_weldid b) 0); [reflexivity|]. sR.
-  repeat match goal with |- context [if ?c then _ else _] => destruct c end; reflexivity.
+  cbv zeta. unfold k__finalize_body_invweight0, THIRD.
+  destruct (Z.eqb b 0 || Z.eqb (body_weldid b) 0); [reflexivity|].
+  destruct (Z.eqb (body_simple b) 2); [rewrite <- smax_Rmax|]; reflexivity.
 Qed.
-Lemma finalize_body_invweight0_nonneg w b body_weldid (A : Z -> Z -> Z -> R) out orc No Na :
+Lemma finalize_body_invweight0_nonneg w b body_weldid body_simple (mass : Z -> Z -> R) (A : Z -> Z -> Z -> R) out orc No Na Nm :
   (forall i j k, 0 <= A i j k) ->
-  Forall vs_nonneg (k__finalize_body_invweight0 w b body_weldid A out orc No Na).
+  Forall vs_nonneg (k__finalize_body_invweight0 w b body_weldid body_simple mass A out orc No Na Nm).
 Proof.
   intros HA. rewrite finalize_body_invweight0_spec. apply Forall_cons; [|apply Forall_nil]. unfold vs_nonneg; cbn [w_val].
   pose proof THIRD_pos.
-  assert (P : forall x y, 0 <= THIRD * (A x y 0%Z + A x y 1%Z + A x y 2%Z)).
-  { intros. apply Rmult_le_pos; [lra|]. repeat apply Rplus_le_le_0_compat; apply HA. }
-  assert (Q : forall x y, 0 <= THIRD * (A x y 3%Z + A x y 4%Z + A x y 5%Z)).
-  { intros. apply Rmult_le_pos; [lra|]. repeat apply Rplus_le_le_0_compat; apply HA. }
   destruct (Z.eqb b 0 || Z.eqb (body_weldid b) 0).
   - repeat (apply Forall_cons; [lra|]). apply Forall_nil.
-  - unfold inv_fallback.
-    repeat match goal with |- context [if ?c then _ else _] => destruct c end; cbn [fst snd];
-      repeat (apply Forall_cons; [first [apply P | apply Q]|]); apply Forall_nil.
+  - destruct (Z.eqb (body_simple b) 2).
+    + apply Forall_cons; [apply Rlt_le, inv_mass_pos|]. apply Forall_cons; [lra|]. apply Forall_nil.
+    + repeat (apply Forall_cons; [apply Rmult_le_pos; [lra|]; repeat apply Rplus_le_le_0_compat; apply HA|]).
+      apply Forall_nil.
 Qed.
-(* what the fallback does: a body whose rotational (translational) weight vanishes, e.g. one
-   moved by slide joints only, gets the other component copied; MuJoCo's mj_setConst keeps 0 *)
-Lemma inv_fallback_slide_only t : MINVAL < t -> inv_fallback t 0 = (t, t).
+(* a moving slider-only body of mass m >= MINVAL: translational weight 1/m, rotational weight 0,
+   whatever the accumulated diagonals (armature included) are *)
+Lemma body_invweight0_simple2 w b body_weldid body_simple (mass : Z -> Z -> R) (A : Z -> Z -> Z -> R) out orc No Na Nm :
+  b <> 0%Z -> body_weldid b <> 0%Z -> body_simple b = 2%Z -> MINVAL <= mass (Z.rem w Nm) b ->
+  k__finalize_body_invweight0 w b body_weldid body_simple mass A out orc No Na Nm
+  = [mkW "body_invweight0_out" [Z.rem w No; b] KSet (VV [1 / mass (Z.rem w Nm) b; 0])].
 Proof.
-  intros Ht. unfold inv_fallback.
-  replace (Rltb t MINVAL) with false by (symmetry; apply Rltb_false; lra). simpl.
-  replace (Rltb 0 MINVAL) with true by (symmetry; apply Rltb_true; unfold MINVAL; lra).
-  replace (Rltb MINVAL t) with true by (symmetry; apply Rltb_true; lra). reflexivity.
+  intros Hb Hw Hs Hm. rewrite finalize_body_invweight0_spec.
+  replace (Z.eqb b 0) with false by (symmetry; apply Z.eqb_neq; exact Hb).
+  replace (Z.eqb (body_weldid b) 0) with false by (symmetry; apply Z.eqb_neq; exact Hw).
+  rewrite Hs. simpl. rewrite Rmax_right by exact Hm. reflexivity.
+Qed.
+
+(* ---------- eq_data ------------------------------------------------------------------------ *)
+(* CONNECT between two bodies: the recomputed second anchor makes the constraint hold at the
+   pose the kinematics were evaluated at (qpos0): both anchors map to the same world point *)
+Lemma compute_eq_data0_connect_satisfied w e (eq_type eq_obj1id eq_obj2id eq_objtype : Z -> Z)
+      (xpos xquat xmat eq_data : Z -> Z -> list R) orc N
+      d0 d1 d2 d3 d4 d5 d6 d7 d8 d9 d10 p0 p1 p2 q0 q1 q2 a0 a1 a2 a3 a4 a5 a6 a7 a8 b0 b1 b2 b3 b4 b5 b6 b7 b8 :
+  eq_type e = 0%Z -> eq_objtype e = 1%Z ->
+  eq_data (Z.rem w N) e = [d0; d1; d2; d3; d4; d5; d6; d7; d8; d9; d10] ->
+  xpos w (eq_obj1id e) = [p0; p1; p2] -> xmat w (eq_obj1id e) = [a0; a1; a2; a3; a4; a5; a6; a7; a8] ->
+  xpos w (eq_obj2id e) = [q0; q1; q2] -> xmat w (eq_obj2id e) = [b0; b1; b2; b3; b4; b5; b6; b7; b8] ->
+  orth3 (xmat w (eq_obj2id e)) ->
+  exists c3 c4 c5,
+    k__compute_eq_data0 w e eq_type eq_obj1id eq_obj2id eq_objtype xpos xquat xmat eq_data orc N
+    = [mkW "eq_data_out" [Z.rem w N; e] KSet (VV [d0; d1; d2; c3; c4; c5; d6; d7; d8; d9; d10])] /\
+    vadd [q0; q1; q2] (mat_vec 3 3 [b0; b1; b2; b3; b4; b5; b6; b7; b8] [c3; c4; c5])
+    = vadd [p0; p1; p2] (mat_vec 3 3 [a0; a1; a2; a3; a4; a5; a6; a7; a8] [d0; d1; d2]).
+Proof.
+  intros Ht Ho Hd Hp1 Hm1 Hp2 Hm2 Horth. rewrite Hm2 in Horth. simpl in Horth.
+  destruct Horth as (H00 & H11 & H22 & H01 & H02 & H12).
+  unfold k__compute_eq_data0. rd_nil. rewrite Ht, Ho, Hd, Hp1, Hm1, Hp2, Hm2.
+  cbv [Z.eqb Pos.eqb fst snd]. cbv beta iota.
+  do 3 eexists. split.
+  - cbv [vset vset_nat Z.to_nat Pos.to_nat Pos.iter_op Nat.add app]. reflexivity.
+  - cbv [vadd vsub vmap2 mat_vec mtranspose mcol mrow vdot vdot_acc vget map seq flat_map app firstn skipn nth Nat.mul Nat.add Z.to_nat Pos.to_nat Pos.iter_op].
+    sR. f_equal; [|f_equal; [|f_equal]].
+    + transitivity (q0 + ((b0*b0 + b1*b1 + b2*b2) * (p0 + (a0*d0 + a1*d1 + a2*d2) - q0)
+                        + (b0*b3 + b1*b4 + b2*b5) * (p1 + (a3*d0 + a4*d1 + a5*d2) - q1)
+                        + (b0*b6 + b1*b7 + b2*b8) * (p2 + (a6*d0 + a7*d1 + a8*d2) - q2))); [ring|].
+      rewrite H00, H01, H02. ring.
+    + transitivity (q1 + ((b0*b3 + b1*b4 + b2*b5) * (p0 + (a0*d0 + a1*d1 + a2*d2) - q0)
+                        + (b3*b3 + b4*b4 + b5*b5) * (p1 + (a3*d0 + a4*d1 + a5*d2) - q1)
+                        + (b3*b6 + b4*b7 + b5*b8) * (p2 + (a6*d0 + a7*d1 + a8*d2) - q2))); [ring|].
+      rewrite H11, H01, H12. ring.
+    + transitivity (q2 + ((b0*b6 + b1*b7 + b2*b8) * (p0 + (a0*d0 + a1*d1 + a2*d2) - q0)
+                        + (b3*b6 + b4*b7 + b5*b8) * (p1 + (a3*d0 + a4*d1 + a5*d2) - q1)
+                        + (b6*b6 + b7*b7 + b8*b8) * (p2 + (a6*d0 + a7*d1 + a8*d2) - q2))); [ring|].
+      rewrite H22, H02, H12. ring.
 Qed.
 
 (* ---------- dampratio ------------------------------------------------------------------------ *)
@@ -626,8 +684,8 @@ Section Rows.
   Lemma k__extract_dof_A_diag_rows (tid0 : Z) (dofid : Z) (result_vec_in : (Z -> Z -> S)) (dof_A_diag_out : (Z -> Z -> S)) (atomic_old : (nat -> Z)) (dof_A_diag_out__shape0 : Z) :
     rows_are (Z.rem tid0 dof_A_diag_out__shape0) (k__extract_dof_A_diag tid0 dofid result_vec_in dof_A_diag_out atomic_old dof_A_diag_out__shape0).
   Proof. rows_tac @k__extract_dof_A_diag. Qed.
-  Lemma k__finalize_dof_invweight0_rows (tid0 : Z) (tid1 : Z) (dof_jntid : (Z -> Z)) (jnt_type : (Z -> Z)) (jnt_dofadr : (Z -> Z)) (dof_A_diag_in : (Z -> Z -> S)) (dof_invweight0_out : (Z -> Z -> S)) (atomic_old : (nat -> Z)) (dof_invweight0_out__shape0 : Z) (dof_A_diag_in__shape0 : Z) :
-    rows_are (Z.rem tid0 dof_invweight0_out__shape0) (k__finalize_dof_invweight0 tid0 tid1 dof_jntid jnt_type jnt_dofadr dof_A_diag_in dof_invweight0_out atomic_old dof_invweight0_out__shape0 dof_A_diag_in__shape0).
+  Lemma k__finalize_dof_invweight0_rows (tid0 : Z) (tid1 : Z) (body_simple : (Z -> Z)) (body_mass : (Z -> Z -> S)) (dof_bodyid : (Z -> Z)) (dof_jntid : (Z -> Z)) (jnt_type : (Z -> Z)) (jnt_dofadr : (Z -> Z)) (dof_A_diag_in : (Z -> Z -> S)) (dof_invweight0_out : (Z -> Z -> S)) (atomic_old : (nat -> Z)) (dof_invweight0_out__shape0 : Z) (dof_A_diag_in__shape0 : Z) (body_mass__shape0 : Z) :
+    rows_are (Z.rem tid0 dof_invweight0_out__shape0) (k__finalize_dof_invweight0 tid0 tid1 body_simple body_mass dof_bodyid dof_jntid jnt_type jnt_dofadr dof_A_diag_in dof_invweight0_out atomic_old dof_invweight0_out__shape0 dof_A_diag_in__shape0 body_mass__shape0).
   Proof. rows_tac @k__finalize_dof_invweight0. Qed.
   Lemma k__compute_body_jac_row_rows (tid0 : Z) (nv : Z) (bodyid_target : Z) (row_idx : Z) (body_parentid : (Z -> Z)) (body_rootid : (Z -> Z)) (body_dofadr : (Z -> Z)) (body_dofnum : (Z -> Z)) (dof_parentid : (Z -> Z)) (subtree_com_in : (Z -> Z -> (list S))) (xipos_in : (Z -> Z -> (list S))) (cdof_in : (Z -> Z -> (list S))) (body_jac_row_out : (Z -> Z -> S)) (atomic_old : (nat -> Z)) :
     rows_are tid0 (k__compute_body_jac_row tid0 nv bodyid_target row_idx body_parentid body_rootid body_dofadr body_dofnum dof_parentid subtree_com_in xipos_in cdof_in body_jac_row_out atomic_old).
@@ -635,8 +693,8 @@ Section Rows.
   Lemma k__compute_body_A_diag_entry_rows (tid0 : Z) (nv : Z) (bodyid_target : Z) (row_idx : Z) (body_jac_row_in : (Z -> Z -> S)) (result_vec_in : (Z -> Z -> S)) (body_A_diag_out : (Z -> Z -> Z -> S)) (atomic_old : (nat -> Z)) (body_A_diag_out__shape0 : Z) :
     rows_are (Z.rem tid0 body_A_diag_out__shape0) (k__compute_body_A_diag_entry tid0 nv bodyid_target row_idx body_jac_row_in result_vec_in body_A_diag_out atomic_old body_A_diag_out__shape0).
   Proof. rows_tac @k__compute_body_A_diag_entry. Qed.
-  Lemma k__finalize_body_invweight0_rows (tid0 : Z) (tid1 : Z) (body_weldid : (Z -> Z)) (body_A_diag_in : (Z -> Z -> Z -> S)) (body_invweight0_out : (Z -> Z -> (list S))) (atomic_old : (nat -> Z)) (body_invweight0_out__shape0 : Z) (body_A_diag_in__shape0 : Z) :
-    rows_are (Z.rem tid0 body_invweight0_out__shape0) (k__finalize_body_invweight0 tid0 tid1 body_weldid body_A_diag_in body_invweight0_out atomic_old body_invweight0_out__shape0 body_A_diag_in__shape0).
+  Lemma k__finalize_body_invweight0_rows (tid0 : Z) (tid1 : Z) (body_weldid : (Z -> Z)) (body_simple : (Z -> Z)) (body_mass : (Z -> Z -> S)) (body_A_diag_in : (Z -> Z -> Z -> S)) (body_invweight0_out : (Z -> Z -> (list S))) (atomic_old : (nat -> Z)) (body_invweight0_out__shape0 : Z) (body_A_diag_in__shape0 : Z) (body_mass__shape0 : Z) :
+    rows_are (Z.rem tid0 body_invweight0_out__shape0) (k__finalize_body_invweight0 tid0 tid1 body_weldid body_simple body_mass body_A_diag_in body_invweight0_out atomic_old body_invweight0_out__shape0 body_A_diag_in__shape0 body_mass__shape0).
   Proof. rows_tac @k__finalize_body_invweight0. Qed.
   Lemma k__copy_tendon_jacobian_rows (tid0 : Z) (tenid_target : Z) (ten_J_rownnz : (Z -> Z)) (ten_J_rowadr : (Z -> Z)) (ten_J_colind : (Z -> Z)) (ten_J_in : (Z -> Z -> S)) (ten_J_vec_out : (Z -> Z -> S)) (atomic_old : (nat -> Z)) (ten_J_in__shape2 : Z) :
     rows_are tid0 (k__copy_tendon_jacobian tid0 tenid_target ten_J_rownnz ten_J_rowadr ten_J_colind ten_J_in ten_J_vec_out atomic_old ten_J_in__shape2).
@@ -644,12 +702,16 @@ Section Rows.
   Lemma k__compute_tendon_dot_product_rows (tid0 : Z) (ten_J_rownnz : (Z -> Z)) (ten_J_rowadr : (Z -> Z)) (ten_J_colind : (Z -> Z)) (tenid_target : Z) (ten_J_in : (Z -> Z -> S)) (result_vec_in : (Z -> Z -> S)) (tendon_invweight0_out : (Z -> Z -> S)) (atomic_old : (nat -> Z)) (tendon_invweight0_out__shape0 : Z) :
     rows_are (Z.rem tid0 tendon_invweight0_out__shape0) (k__compute_tendon_dot_product tid0 ten_J_rownnz ten_J_rowadr ten_J_colind tenid_target ten_J_in result_vec_in tendon_invweight0_out atomic_old tendon_invweight0_out__shape0).
   Proof. rows_tac @k__compute_tendon_dot_product. Qed.
-  Lemma k__compute_cam_pos0_rows (tid0 : Z) (tid1 : Z) (cam_bodyid : (Z -> Z)) (cam_targetbodyid : (Z -> Z)) (cam_xpos_in : (Z -> Z -> (list S))) (cam_xmat_in : (Z -> Z -> (list S))) (xpos_in : (Z -> Z -> (list S))) (subtree_com_in : (Z -> Z -> (list S))) (cam_pos0_out : (Z -> Z -> (list S))) (cam_poscom0_out : (Z -> Z -> (list S))) (cam_mat0_out : (Z -> Z -> (list S))) (atomic_old : (nat -> Z)) (cam_pos0_out__shape0 : Z) :
-    rows_are (Z.rem tid0 cam_pos0_out__shape0) (k__compute_cam_pos0 tid0 tid1 cam_bodyid cam_targetbodyid cam_xpos_in cam_xmat_in xpos_in subtree_com_in cam_pos0_out cam_poscom0_out cam_mat0_out atomic_old cam_pos0_out__shape0).
-  Proof. rows_tac @k__compute_cam_pos0. Qed.
-  Lemma k__compute_light_pos0_rows (tid0 : Z) (tid1 : Z) (light_bodyid : (Z -> Z)) (light_targetbodyid : (Z -> Z)) (light_xpos_in : (Z -> Z -> (list S))) (light_xdir_in : (Z -> Z -> (list S))) (xpos_in : (Z -> Z -> (list S))) (subtree_com_in : (Z -> Z -> (list S))) (light_pos0_out : (Z -> Z -> (list S))) (light_poscom0_out : (Z -> Z -> (list S))) (light_dir0_out : (Z -> Z -> (list S))) (atomic_old : (nat -> Z)) (light_pos0_out__shape0 : Z) :
-    rows_are (Z.rem tid0 light_pos0_out__shape0) (k__compute_light_pos0 tid0 tid1 light_bodyid light_targetbodyid light_xpos_in light_xdir_in xpos_in subtree_com_in light_pos0_out light_poscom0_out light_dir0_out atomic_old light_pos0_out__shape0).
-  Proof. rows_tac @k__compute_light_pos0. Qed.
+  Lemma k__compute_cam_pos0_rows (tid0 : Z) (tid1 : Z) (cam_bodyid : (Z -> Z)) (cam_targetbodyid : (Z -> Z)) (cam_xpos_in : (Z -> Z -> (list S))) (cam_xmat_in : (Z -> Z -> (list S))) (xpos_in : (Z -> Z -> (list S))) (subtree_com_in : (Z -> Z -> (list S))) (cam_pos0_out : (Z -> Z -> (list S))) (cam_poscom0_out : (Z -> Z -> (list S))) (cam_mat0_out : (Z -> Z -> (list S))) (atomic_old : (nat -> Z)) (cam_pos0_out__shape0 : Z) (cam_poscom0_out__shape0 : Z) (cam_mat0_out__shape0 : Z) :
+    rows_of "cam_pos0_out" (Z.rem tid0 cam_pos0_out__shape0) (k__compute_cam_pos0 tid0 tid1 cam_bodyid cam_targetbodyid cam_xpos_in cam_xmat_in xpos_in subtree_com_in cam_pos0_out cam_poscom0_out cam_mat0_out atomic_old cam_pos0_out__shape0 cam_poscom0_out__shape0 cam_mat0_out__shape0) /\
+    rows_of "cam_poscom0_out" (Z.rem tid0 cam_poscom0_out__shape0) (k__compute_cam_pos0 tid0 tid1 cam_bodyid cam_targetbodyid cam_xpos_in cam_xmat_in xpos_in subtree_com_in cam_pos0_out cam_poscom0_out cam_mat0_out atomic_old cam_pos0_out__shape0 cam_poscom0_out__shape0 cam_mat0_out__shape0) /\
+    rows_of "cam_mat0_out" (Z.rem tid0 cam_mat0_out__shape0) (k__compute_cam_pos0 tid0 tid1 cam_bodyid cam_targetbodyid cam_xpos_in cam_xmat_in xpos_in subtree_com_in cam_pos0_out cam_poscom0_out cam_mat0_out atomic_old cam_pos0_out__shape0 cam_poscom0_out__shape0 cam_mat0_out__shape0).
+  Proof. rewrite compute_cam_pos0_spec. repeat split; repeat (apply Forall_cons; [cbn [w_arr w_idx nth]; first [reflexivity | intro; discriminate]|]); apply Forall_nil. Qed.
+  Lemma k__compute_light_pos0_rows (tid0 : Z) (tid1 : Z) (light_bodyid : (Z -> Z)) (light_targetbodyid : (Z -> Z)) (light_xpos_in : (Z -> Z -> (list S))) (light_xdir_in : (Z -> Z -> (list S))) (xpos_in : (Z -> Z -> (list S))) (subtree_com_in : (Z -> Z -> (list S))) (light_pos0_out : (Z -> Z -> (list S))) (light_poscom0_out : (Z -> Z -> (list S))) (light_dir0_out : (Z -> Z -> (list S))) (atomic_old : (nat -> Z)) (light_pos0_out__shape0 : Z) (light_poscom0_out__shape0 : Z) (light_dir0_out__shape0 : Z) :
+    rows_of "light_pos0_out" (Z.rem tid0 light_pos0_out__shape0) (k__compute_light_pos0 tid0 tid1 light_bodyid light_targetbodyid light_xpos_in light_xdir_in xpos_in subtree_com_in light_pos0_out light_poscom0_out light_dir0_out atomic_old light_pos0_out__shape0 light_poscom0_out__shape0 light_dir0_out__shape0) /\
+    rows_of "light_poscom0_out" (Z.rem tid0 light_poscom0_out__shape0) (k__compute_light_pos0 tid0 tid1 light_bodyid light_targetbodyid light_xpos_in light_xdir_in xpos_in subtree_com_in light_pos0_out light_poscom0_out light_dir0_out atomic_old light_pos0_out__shape0 light_poscom0_out__shape0 light_dir0_out__shape0) /\
+    rows_of "light_dir0_out" (Z.rem tid0 light_dir0_out__shape0) (k__compute_light_pos0 tid0 tid1 light_bodyid light_targetbodyid light_xpos_in light_xdir_in xpos_in subtree_com_in light_pos0_out light_poscom0_out light_dir0_out atomic_old light_pos0_out__shape0 light_poscom0_out__shape0 light_dir0_out__shape0).
+  Proof. rewrite compute_light_pos0_spec. repeat split; repeat (apply Forall_cons; [cbn [w_arr w_idx nth]; first [reflexivity | intro; discriminate]|]); apply Forall_nil. Qed.
   Lemma k__copy_actuator_moment_rows (tid0 : Z) (actid_target : Z) (moment_rownnz_in : (Z -> Z -> Z)) (moment_rowadr_in : (Z -> Z -> Z)) (moment_colind_in : (Z -> Z -> Z)) (actuator_moment_in : (Z -> Z -> S)) (act_moment_vec_out : (Z -> Z -> S)) (atomic_old : (nat -> Z)) (act_moment_vec_out__shape1 : Z) :
     rows_are tid0 (k__copy_actuator_moment tid0 actid_target moment_rownnz_in moment_rowadr_in moment_colind_in actuator_moment_in act_moment_vec_out atomic_old act_moment_vec_out__shape1).
   Proof. rows_tac @k__copy_actuator_moment. Qed.
@@ -667,6 +729,60 @@ Section Rows.
   Proof. rows_tac @k__set_length_range. Qed.
 End Rows.
 
+(* all 22 kernels at once (instance R) *)
+Theorem rows_all :
+  (forall (tid0 : Z) (tid1 : Z) (body_mass_in : (Z -> Z -> R)) (body_subtreemass_out : (Z -> Z -> R)) (atomic_old : (nat -> Z)) (body_mass_in__shape0 : Z) (body_subtreemass_out__shape0 : Z),
+     rows_are (Z.rem tid0 body_subtreemass_out__shape0) (k__init_subtreemass tid0 tid1 body_mass_in body_subtreemass_out atomic_old body_mass_in__shape0 body_subtreemass_out__shape0)) /\
+  (forall (tid0 : Z) (tid1 : Z) (body_parentid : (Z -> Z)) (body_subtreemass_io : (Z -> Z -> R)) (body_tree_ : (Z -> Z)) (atomic_old : (nat -> Z)) (body_subtreemass_io__shape0 : Z),
+     rows_are (Z.rem tid0 body_subtreemass_io__shape0) (k__accumulate_subtreemass tid0 tid1 body_parentid body_subtreemass_io body_tree_ atomic_old body_subtreemass_io__shape0)) /\
+  (forall (tid0 : Z) (tid1 : Z) (qpos0 : (Z -> Z -> R)) (qpos_out : (Z -> Z -> R)) (atomic_old : (nat -> Z)) (qpos0__shape0 : Z),
+     rows_are tid0 (k__copy_qpos0_to_qpos tid0 tid1 qpos0 qpos_out atomic_old qpos0__shape0)) /\
+  (forall (tid0 : Z) (tid1 : Z) (ten_length_in : (Z -> Z -> R)) (tendon_length0_out : (Z -> Z -> R)) (atomic_old : (nat -> Z)) (tendon_length0_out__shape0 : Z),
+     rows_are (Z.rem tid0 tendon_length0_out__shape0) (k__copy_tendon_length0 tid0 tid1 ten_length_in tendon_length0_out atomic_old tendon_length0_out__shape0)) /\
+  (forall (tid0 : Z) (tid1 : Z) (eq_type : (Z -> Z)) (eq_obj1id : (Z -> Z)) (eq_obj2id : (Z -> Z)) (eq_objtype : (Z -> Z)) (xpos_in : (Z -> Z -> (list R))) (xquat_in : (Z -> Z -> (list R))) (xmat_in : (Z -> Z -> (list R))) (eq_data_out : (Z -> Z -> (list R))) (atomic_old : (nat -> Z)) (eq_data_out__shape0 : Z),
+     rows_are (Z.rem tid0 eq_data_out__shape0) (k__compute_eq_data0 tid0 tid1 eq_type eq_obj1id eq_obj2id eq_objtype xpos_in xquat_in xmat_in eq_data_out atomic_old eq_data_out__shape0)) /\
+  (forall (tid0 : Z) (tid1 : Z) (ten_length_in : (Z -> Z -> R)) (tendon_lengthspring_out : (Z -> Z -> (list R))) (atomic_old : (nat -> Z)) (tendon_lengthspring_out__shape0 : Z),
+     rows_are (Z.rem tid0 tendon_lengthspring_out__shape0) (k__resolve_tendon_lengthspring tid0 tid1 ten_length_in tendon_lengthspring_out atomic_old tendon_lengthspring_out__shape0)) /\
+  (forall (tid0 : Z) (nv : Z) (M_rownnz_in : (Z -> Z)) (M_rowadr_in : (Z -> Z)) (M_in : (Z -> Z -> R)) (meaninertia_out : (Z -> R)) (atomic_old : (nat -> Z)) (meaninertia_out__shape0 : Z),
+     rows_are (Z.rem tid0 meaninertia_out__shape0) (k__compute_meaninertia tid0 nv M_rownnz_in M_rowadr_in M_in meaninertia_out atomic_old meaninertia_out__shape0)) /\
+  (forall (tid0 : Z) (dofid_target : Z) (unit_vec_out : (Z -> Z -> R)) (atomic_old : (nat -> Z)) (unit_vec_out__shape1 : Z),
+     rows_are tid0 (k__set_unit_vector tid0 dofid_target unit_vec_out atomic_old unit_vec_out__shape1)) /\
+  (forall (tid0 : Z) (dofid : Z) (result_vec_in : (Z -> Z -> R)) (dof_A_diag_out : (Z -> Z -> R)) (atomic_old : (nat -> Z)) (dof_A_diag_out__shape0 : Z),
+     rows_are (Z.rem tid0 dof_A_diag_out__shape0) (k__extract_dof_A_diag tid0 dofid result_vec_in dof_A_diag_out atomic_old dof_A_diag_out__shape0)) /\
+  (forall (tid0 : Z) (tid1 : Z) (body_simple : (Z -> Z)) (body_mass : (Z -> Z -> R)) (dof_bodyid : (Z -> Z)) (dof_jntid : (Z -> Z)) (jnt_type : (Z -> Z)) (jnt_dofadr : (Z -> Z)) (dof_A_diag_in : (Z -> Z -> R)) (dof_invweight0_out : (Z -> Z -> R)) (atomic_old : (nat -> Z)) (dof_invweight0_out__shape0 : Z) (dof_A_diag_in__shape0 : Z) (body_mass__shape0 : Z),
+     rows_are (Z.rem tid0 dof_invweight0_out__shape0) (k__finalize_dof_invweight0 tid0 tid1 body_simple body_mass dof_bodyid dof_jntid jnt_type jnt_dofadr dof_A_diag_in dof_invweight0_out atomic_old dof_invweight0_out__shape0 dof_A_diag_in__shape0 body_mass__shape0)) /\
+  (forall (tid0 : Z) (nv : Z) (bodyid_target : Z) (row_idx : Z) (body_parentid : (Z -> Z)) (body_rootid : (Z -> Z)) (body_dofadr : (Z -> Z)) (body_dofnum : (Z -> Z)) (dof_parentid : (Z -> Z)) (subtree_com_in : (Z -> Z -> (list R))) (xipos_in : (Z -> Z -> (list R))) (cdof_in : (Z -> Z -> (list R))) (body_jac_row_out : (Z -> Z -> R)) (atomic_old : (nat -> Z)),
+     rows_are tid0 (k__compute_body_jac_row tid0 nv bodyid_target row_idx body_parentid body_rootid body_dofadr body_dofnum dof_parentid subtree_com_in xipos_in cdof_in body_jac_row_out atomic_old)) /\
+  (forall (tid0 : Z) (nv : Z) (bodyid_target : Z) (row_idx : Z) (body_jac_row_in : (Z -> Z -> R)) (result_vec_in : (Z -> Z -> R)) (body_A_diag_out : (Z -> Z -> Z -> R)) (atomic_old : (nat -> Z)) (body_A_diag_out__shape0 : Z),
+     rows_are (Z.rem tid0 body_A_diag_out__shape0) (k__compute_body_A_diag_entry tid0 nv bodyid_target row_idx body_jac_row_in result_vec_in body_A_diag_out atomic_old body_A_diag_out__shape0)) /\
+  (forall (tid0 : Z) (tid1 : Z) (body_weldid : (Z -> Z)) (body_simple : (Z -> Z)) (body_mass : (Z -> Z -> R)) (body_A_diag_in : (Z -> Z -> Z -> R)) (body_invweight0_out : (Z -> Z -> (list R))) (atomic_old : (nat -> Z)) (body_invweight0_out__shape0 : Z) (body_A_diag_in__shape0 : Z) (body_mass__shape0 : Z),
+     rows_are (Z.rem tid0 body_invweight0_out__shape0) (k__finalize_body_invweight0 tid0 tid1 body_weldid body_simple body_mass body_A_diag_in body_invweight0_out atomic_old body_invweight0_out__shape0 body_A_diag_in__shape0 body_mass__shape0)) /\
+  (forall (tid0 : Z) (tenid_target : Z) (ten_J_rownnz : (Z -> Z)) (ten_J_rowadr : (Z -> Z)) (ten_J_colind : (Z -> Z)) (ten_J_in : (Z -> Z -> R)) (ten_J_vec_out : (Z -> Z -> R)) (atomic_old : (nat -> Z)) (ten_J_in__shape2 : Z),
+     rows_are tid0 (k__copy_tendon_jacobian tid0 tenid_target ten_J_rownnz ten_J_rowadr ten_J_colind ten_J_in ten_J_vec_out atomic_old ten_J_in__shape2)) /\
+  (forall (tid0 : Z) (ten_J_rownnz : (Z -> Z)) (ten_J_rowadr : (Z -> Z)) (ten_J_colind : (Z -> Z)) (tenid_target : Z) (ten_J_in : (Z -> Z -> R)) (result_vec_in : (Z -> Z -> R)) (tendon_invweight0_out : (Z -> Z -> R)) (atomic_old : (nat -> Z)) (tendon_invweight0_out__shape0 : Z),
+     rows_are (Z.rem tid0 tendon_invweight0_out__shape0) (k__compute_tendon_dot_product tid0 ten_J_rownnz ten_J_rowadr ten_J_colind tenid_target ten_J_in result_vec_in tendon_invweight0_out atomic_old tendon_invweight0_out__shape0)) /\
+  (forall (tid0 : Z) (tid1 : Z) (cam_bodyid : (Z -> Z)) (cam_targetbodyid : (Z -> Z)) (cam_xpos_in : (Z -> Z -> (list R))) (cam_xmat_in : (Z -> Z -> (list R))) (xpos_in : (Z -> Z -> (list R))) (subtree_com_in : (Z -> Z -> (list R))) (cam_pos0_out : (Z -> Z -> (list R))) (cam_poscom0_out : (Z -> Z -> (list R))) (cam_mat0_out : (Z -> Z -> (list R))) (atomic_old : (nat -> Z)) (cam_pos0_out__shape0 : Z) (cam_poscom0_out__shape0 : Z) (cam_mat0_out__shape0 : Z),
+     rows_of "cam_pos0_out" (Z.rem tid0 cam_pos0_out__shape0) (k__compute_cam_pos0 tid0 tid1 cam_bodyid cam_targetbodyid cam_xpos_in cam_xmat_in xpos_in subtree_com_in cam_pos0_out cam_poscom0_out cam_mat0_out atomic_old cam_pos0_out__shape0 cam_poscom0_out__shape0 cam_mat0_out__shape0) /\
+    rows_of "cam_poscom0_out" (Z.rem tid0 cam_poscom0_out__shape0) (k__compute_cam_pos0 tid0 tid1 cam_bodyid cam_targetbodyid cam_xpos_in cam_xmat_in xpos_in subtree_com_in cam_pos0_out cam_poscom0_out cam_mat0_out atomic_old cam_pos0_out__shape0 cam_poscom0_out__shape0 cam_mat0_out__shape0) /\
+    rows_of "cam_mat0_out" (Z.rem tid0 cam_mat0_out__shape0) (k__compute_cam_pos0 tid0 tid1 cam_bodyid cam_targetbodyid cam_xpos_in cam_xmat_in xpos_in subtree_com_in cam_pos0_out cam_poscom0_out cam_mat0_out atomic_old cam_pos0_out__shape0 cam_poscom0_out__shape0 cam_mat0_out__shape0)) /\
+  (forall (tid0 : Z) (tid1 : Z) (light_bodyid : (Z -> Z)) (light_targetbodyid : (Z -> Z)) (light_xpos_in : (Z -> Z -> (list R))) (light_xdir_in : (Z -> Z -> (list R))) (xpos_in : (Z -> Z -> (list R))) (subtree_com_in : (Z -> Z -> (list R))) (light_pos0_out : (Z -> Z -> (list R))) (light_poscom0_out : (Z -> Z -> (list R))) (light_dir0_out : (Z -> Z -> (list R))) (atomic_old : (nat -> Z)) (light_pos0_out__shape0 : Z) (light_poscom0_out__shape0 : Z) (light_dir0_out__shape0 : Z),
+     rows_of "light_pos0_out" (Z.rem tid0 light_pos0_out__shape0) (k__compute_light_pos0 tid0 tid1 light_bodyid light_targetbodyid light_xpos_in light_xdir_in xpos_in subtree_com_in light_pos0_out light_poscom0_out light_dir0_out atomic_old light_pos0_out__shape0 light_poscom0_out__shape0 light_dir0_out__shape0) /\
+    rows_of "light_poscom0_out" (Z.rem tid0 light_poscom0_out__shape0) (k__compute_light_pos0 tid0 tid1 light_bodyid light_targetbodyid light_xpos_in light_xdir_in xpos_in subtree_com_in light_pos0_out light_poscom0_out light_dir0_out atomic_old light_pos0_out__shape0 light_poscom0_out__shape0 light_dir0_out__shape0) /\
+    rows_of "light_dir0_out" (Z.rem tid0 light_dir0_out__shape0) (k__compute_light_pos0 tid0 tid1 light_bodyid light_targetbodyid light_xpos_in light_xdir_in xpos_in subtree_com_in light_pos0_out light_poscom0_out light_dir0_out atomic_old light_pos0_out__shape0 light_poscom0_out__shape0 light_dir0_out__shape0)) /\
+  (forall (tid0 : Z) (actid_target : Z) (moment_rownnz_in : (Z -> Z -> Z)) (moment_rowadr_in : (Z -> Z -> Z)) (moment_colind_in : (Z -> Z -> Z)) (actuator_moment_in : (Z -> Z -> R)) (act_moment_vec_out : (Z -> Z -> R)) (atomic_old : (nat -> Z)) (act_moment_vec_out__shape1 : Z),
+     rows_are tid0 (k__copy_actuator_moment tid0 actid_target moment_rownnz_in moment_rowadr_in moment_colind_in actuator_moment_in act_moment_vec_out atomic_old act_moment_vec_out__shape1)) /\
+  (forall (tid0 : Z) (actid_target : Z) (nv : Z) (result_vec_in : (Z -> Z -> R)) (actuator_acc0_out : (Z -> Z -> R)) (atomic_old : (nat -> Z)),
+     rows_are tid0 (k__compute_actuator_acc0 tid0 actid_target nv result_vec_in actuator_acc0_out atomic_old)) /\
+  (forall (tid0 : Z) (tid1 : Z) (dof_bodyid : (Z -> Z)) (dof_armature : (Z -> Z -> R)) (cdof_in : (Z -> Z -> (list R))) (crb_in : (Z -> Z -> (list R))) (dof_M0_out : (Z -> Z -> R)) (atomic_old : (nat -> Z)) (dof_armature__shape0 : Z),
+     rows_are tid0 (k__compute_dof_M0 tid0 tid1 dof_bodyid dof_armature cdof_in crb_in dof_M0_out atomic_old dof_armature__shape0)) /\
+  (forall (tid0 : Z) (tid1 : Z) (actuator_biastype : (Z -> Z)) (actuator_gainprm : (Z -> Z -> (list R))) (moment_rownnz_in : (Z -> Z -> Z)) (moment_rowadr_in : (Z -> Z -> Z)) (moment_colind_in : (Z -> Z -> Z)) (actuator_moment_in : (Z -> Z -> R)) (dof_M0_in : (Z -> Z -> R)) (nv : Z) (actuator_biasprm : (Z -> Z -> (list R))) (atomic_old : (nat -> Z)) (actuator_gainprm__shape0 : Z) (actuator_biasprm__shape0 : Z),
+     rows_are (Z.rem tid0 actuator_biasprm__shape0) (k__resolve_dampratio tid0 tid1 actuator_biastype actuator_gainprm moment_rownnz_in moment_rowadr_in moment_colind_in actuator_moment_in dof_M0_in nv actuator_biasprm atomic_old actuator_gainprm__shape0 actuator_biasprm__shape0)) /\
+  (forall (tid0 : Z) (tid1 : Z) (actuator_trntype : (Z -> Z)) (actuator_trnid : (Z -> (list Z))) (actuator_gear : (Z -> Z -> (list R))) (jnt_limited : (Z -> Z)) (jnt_range : (Z -> Z -> (list R))) (tendon_limited : (Z -> Z)) (tendon_range : (Z -> Z -> (list R))) (ntendon : Z) (actuator_lengthrange_out : (Z -> Z -> (list R))) (atomic_old : (nat -> Z)) (actuator_gear__shape0 : Z) (jnt_range__shape0 : Z) (tendon_range__shape0 : Z),
+     rows_are tid0 (k__set_length_range tid0 tid1 actuator_trntype actuator_trnid actuator_gear jnt_limited jnt_range tendon_limited tendon_range ntendon actuator_lengthrange_out atomic_old actuator_gear__shape0 jnt_range__shape0 tendon_range__shape0)).
+Proof.
+  exact (conj k__init_subtreemass_rows (conj k__accumulate_subtreemass_rows (conj k__copy_qpos0_to_qpos_rows (conj k__copy_tendon_length0_rows (conj k__compute_eq_data0_rows (conj k__resolve_tendon_lengthspring_rows (conj k__compute_meaninertia_rows (conj k__set_unit_vector_rows (conj k__extract_dof_A_diag_rows (conj k__finalize_dof_invweight0_rows (conj k__compute_body_jac_row_rows (conj k__compute_body_A_diag_entry_rows (conj k__finalize_body_invweight0_rows (conj k__copy_tendon_jacobian_rows (conj k__compute_tendon_dot_product_rows (conj k__compute_cam_pos0_rows (conj k__compute_light_pos0_rows (conj k__copy_actuator_moment_rows (conj k__compute_actuator_acc0_rows (conj k__compute_dof_M0_rows (conj k__resolve_dampratio_rows (k__set_length_range_rows)))))))))))))))))))))).
+Qed.
+
 (* ---------- launch-site discipline ---------------------------------------------------------- *)
 (* a kernel that writes row  tid0 rem shape0  stays inside its output whatever the launch
    dimension is *)
@@ -681,46 +797,31 @@ Proof.
   intros. unfold row_in_bounds. apply andb_true_iff. split; [apply Z.leb_le | apply Z.ltb_lt]; lia.
 Qed.
 
-(* set_length_range launches _set_length_range with dim=(d.nworld, m.nu) but the output
-   m.actuator_lengthrange has leading size 1 for an unbatched model: task (1, a) of a
-   2-world launch writes row 1 of a 1-row array. *)
-Theorem set_length_range_row_in_bounds_refuted :
-  exists (nworld shape0 tid0 : Z),
-    0 <= tid0 < nworld /\ 0 < shape0 /\
-    forall a trntype trnid (gear : Z -> Z -> list R) jl (jr : Z -> Z -> list R) tl (tr : Z -> Z -> list R)
-           nt out orc Ng Nj Nt,
-      Forall (fun w => w_arr w = "actuator_lengthrange_out"%string /\
-                       row_in_bounds (nth 0 (w_idx w) (-1)) shape0 = false)
-             (k__set_length_range tid0 a trntype trnid gear jl jr tl tr nt out orc Ng Nj Nt)
-      /\ k__set_length_range tid0 a trntype trnid gear jl jr tl tr nt out orc Ng Nj Nt <> [].
+(* cameras / lights: whatever the three leading sizes are (partially batched outputs), every
+   write of task tid0 < max of them lands inside the array it goes to *)
+Theorem compute_cam_pos0_rows_in_bounds :
+  forall tid0 c bodyid targetid (cxpos cxmat xpos scom p0 pc0 m0 : Z -> Z -> list R) orc N1 N2 N3,
+    0 <= tid0 -> 0 < N1 -> 0 < N2 -> 0 < N3 ->
+    Forall (fun w => row_in_bounds (nth 0 (w_idx w) (-1))
+                       (if String.eqb (w_arr w) "cam_pos0_out" then N1
+                        else if String.eqb (w_arr w) "cam_poscom0_out" then N2 else N3) = true)
+           (k__compute_cam_pos0 tid0 c bodyid targetid cxpos cxmat xpos scom p0 pc0 m0 orc N1 N2 N3).
 Proof.
-  exists 2, 1, 1. split; [lia|]. split; [lia|]. intros.
-  destruct (set_length_range_row 1 a trntype trnid gear jl jr tl tr nt out orc Ng Nj Nt) as [lr ->].
-  split; [|discriminate]. apply Forall_cons; [|apply Forall_nil]. split; reflexivity.
+  intros. rewrite compute_cam_pos0_spec.
+  repeat (apply Forall_cons; [cbn [w_arr w_idx nth String.eqb Ascii.eqb Bool.eqb]; apply mod_row_in_bounds; assumption|]).
+  apply Forall_nil.
 Qed.
-
-(* _compute_cam_pos0 is launched with dim0 = max of the three outputs' leading sizes but
-   indexes all three with cam_pos0_out.shape[0]: with cam_pos0 batched (2 rows) and cam_mat0
-   not (1 row), task (1, c) writes row 1 of the 1-row cam_mat0 ... *)
-Theorem compute_cam_pos0_mixed_batch_refuted :
-  exists (pos0_shape0 mat0_shape0 tid0 : Z),
-    0 <= tid0 < Z.max pos0_shape0 mat0_shape0 /\ 0 < mat0_shape0 /\
-    forall c bodyid targetid (cxpos cxmat xpos scom p0 pc0 m0 : Z -> Z -> list R) orc,
-      Exists (fun w => w_arr w = "cam_mat0_out"%string /\
-                       row_in_bounds (nth 0 (w_idx w) (-1)) mat0_shape0 = false)
-             (k__compute_cam_pos0 tid0 c bodyid targetid cxpos cxmat xpos scom p0 pc0 m0 orc pos0_shape0).
+Theorem compute_light_pos0_rows_in_bounds :
+  forall tid0 c bodyid targetid (lxpos lxdir xpos scom p0 pc0 d0 : Z -> Z -> list R) orc N1 N2 N3,
+    0 <= tid0 -> 0 < N1 -> 0 < N2 -> 0 < N3 ->
+    Forall (fun w => row_in_bounds (nth 0 (w_idx w) (-1))
+                       (if String.eqb (w_arr w) "light_pos0_out" then N1
+                        else if String.eqb (w_arr w) "light_poscom0_out" then N2 else N3) = true)
+           (k__compute_light_pos0 tid0 c bodyid targetid lxpos lxdir xpos scom p0 pc0 d0 orc N1 N2 N3).
 Proof.
-  exists 2, 1, 1. split; [lia|]. split; [lia|]. intros. rewrite compute_cam_pos0_spec.
-  apply Exists_cons_tl, Exists_cons_tl, Exists_cons_hd. split; reflexivity.
-Qed.
-(* ... and with cam_mat0 batched (2 rows) and cam_pos0 not, NO task ever writes row 1 of
-   cam_mat0: world 1 keeps a stale matrix and world 0 receives the value of the last task *)
-Theorem compute_cam_pos0_mixed_batch_stale :
-  forall tid0 c bodyid targetid (cxpos cxmat xpos scom p0 pc0 m0 : Z -> Z -> list R) orc,
-    rows_are 0 (k__compute_cam_pos0 tid0 c bodyid targetid cxpos cxmat xpos scom p0 pc0 m0 orc 1).
-Proof.
-  intros. rewrite compute_cam_pos0_spec. rewrite Z.rem_1_r.
-  repeat (apply Forall_cons; [reflexivity|]). apply Forall_nil.
+  intros. rewrite compute_light_pos0_spec.
+  repeat (apply Forall_cons; [cbn [w_arr w_idx nth String.eqb Ascii.eqb Bool.eqb]; apply mod_row_in_bounds; assumption|]).
+  apply Forall_nil.
 Qed.
 
 (* hypotheses of subtreemass_levels_thm are satisfiable: C02's example forest, two worlds,
@@ -978,12 +1079,15 @@ Lemma sc_events_wellformed :
   && evs_ok scfixed_events && evs_ok restore_events = true.
 Proof. vm_compute. reflexivity. Qed.
 
-Lemma sc_restored_bool :
-  restored sc_inplace sc_events sc_state_fields
-  && restored sc_inplace sc_events_norestore sc_state_fields
-  && restored sc_inplace sc0_events sc_state_fields
-  && restored sc_inplace scspring_events sc_state_fields
-  && restored sc_inplace scfixed_events sc_state_fields = true.
+Lemma sc_restored_set_const : restored sc_inplace sc_events sc_state_fields = true.
+Proof. vm_compute. reflexivity. Qed.
+Lemma sc_restored_set_const_norestore : restored sc_inplace sc_events_norestore sc_state_fields = true.
+Proof. vm_compute. reflexivity. Qed.
+Lemma sc_restored_set_const_0 : restored sc_inplace sc0_events sc_state_fields = true.
+Proof. vm_compute. reflexivity. Qed.
+Lemma sc_restored_set_const_spring : restored sc_inplace scspring_events sc_state_fields = true.
+Proof. vm_compute. reflexivity. Qed.
+Lemma sc_restored_set_const_fixed : restored sc_inplace scfixed_events sc_state_fields = true.
 Proof. vm_compute. reflexivity. Qed.
 
 Section Instances.
@@ -992,35 +1096,37 @@ Section Instances.
   Variable v : string -> bool.
   Hypothesis HF : frame_ok sc_inplace V I.
 
-  Ltac pick H := repeat (apply andb_true_iff in H; destruct H as [H ?]); try assumption.
-
   (* set_const(m, d) (restore=True): every integration-state field of Data -- d.qpos
      included, which is overwritten with qpos0 and qpos_spring in between -- holds its
      initial value at the end, for every outcome of the host conditions *)
   Theorem set_const_restores_state_thm : forall s f, In f sc_state_fields ->
     crun V I v sc_events s f = s f.
-  Proof.
-    intros s. apply (restored_sound sc_inplace V I v HF s). pose proof sc_restored_bool as H. pick H.
-  Qed.
+  Proof. intros s. exact (restored_sound sc_inplace V I v HF s _ _ sc_restored_set_const). Qed.
   Theorem set_const_norestore_restores_state_thm : forall s f, In f sc_state_fields ->
     crun V I v sc_events_norestore s f = s f.
-  Proof.
-    intros s. apply (restored_sound sc_inplace V I v HF s). pose proof sc_restored_bool as H. pick H.
-  Qed.
+  Proof. intros s. exact (restored_sound sc_inplace V I v HF s _ _ sc_restored_set_const_norestore). Qed.
   Theorem set_const_0_restores_state_thm : forall s f, In f sc_state_fields ->
     crun V I v sc0_events s f = s f.
-  Proof.
-    intros s. apply (restored_sound sc_inplace V I v HF s). pose proof sc_restored_bool as H. pick H.
-  Qed.
+  Proof. intros s. exact (restored_sound sc_inplace V I v HF s _ _ sc_restored_set_const_0). Qed.
   Theorem set_const_spring_restores_state_thm : forall s f, In f sc_state_fields ->
     crun V I v scspring_events s f = s f.
-  Proof.
-    intros s. apply (restored_sound sc_inplace V I v HF s). pose proof sc_restored_bool as H. pick H.
-  Qed.
+  Proof. intros s. exact (restored_sound sc_inplace V I v HF s _ _ sc_restored_set_const_spring). Qed.
   Theorem set_const_fixed_restores_state_thm : forall s f, In f sc_state_fields ->
     crun V I v scfixed_events s f = s f.
+  Proof. intros s. exact (restored_sound sc_inplace V I v HF s _ _ sc_restored_set_const_fixed). Qed.
+  Theorem set_const_all_restore_state_thm : forall s f, In f sc_state_fields ->
+    crun V I v sc_events s f = s f /\
+    crun V I v sc_events_norestore s f = s f /\
+    crun V I v sc0_events s f = s f /\
+    crun V I v scspring_events s f = s f /\
+    crun V I v scfixed_events s f = s f.
   Proof.
-    intros s. apply (restored_sound sc_inplace V I v HF s). pose proof sc_restored_bool as H. pick H.
+    intros s f Hf. repeat split.
+    - apply set_const_restores_state_thm; exact Hf.
+    - apply set_const_norestore_restores_state_thm; exact Hf.
+    - apply set_const_0_restores_state_thm; exact Hf.
+    - apply set_const_spring_restores_state_thm; exact Hf.
+    - apply set_const_fixed_restores_state_thm; exact Hf.
   Qed.
 End Instances.
 
@@ -1037,7 +1143,7 @@ Proof. vm_compute. reflexivity. Qed.
 
 (* restore=True is restore=False followed by the nine position stages, which do not write
    d.qpos: the derived Data fields are recomputed from the RESTORED qpos *)
-Lemma sc_restore_is_suffix : sc_events = sc_events_norestore ++ restore_events.
+Lemma sc_restore_is_suffix : sc_events = (sc_events_norestore ++ restore_events)%list.
 Proof. vm_compute. reflexivity. Qed.
 Lemma restore_stages_keep_state :
   forallb (fun f => negb (mem f (lws sc_inplace restore_events))) sc_state_fields = true.
@@ -1049,3 +1155,15 @@ Proof. vm_compute. reflexivity. Qed.
 (* no host-side alias (`x = d.qpos`) of a tracked field or of the saved copy *)
 Lemma sc_no_alias : no_alias_of ("qpos_saved" :: sc_state_fields) sc_events = true.
 Proof. vm_compute. reflexivity. Qed.
+
+Lemma sc_restore_structure :
+  evs_ok sc_events && evs_ok sc_events_norestore && evs_ok sc0_events && evs_ok scspring_events
+    && evs_ok scfixed_events && evs_ok restore_events = true /\
+  sc_events = (sc_events_norestore ++ restore_events)%list /\
+  forallb (fun f => negb (mem f (lws sc_inplace restore_events))) sc_state_fields = true /\
+  dirty_not_recomputed sc_inplace = [] /\
+  no_alias_of ("qpos_saved" :: sc_state_fields) sc_events = true.
+Proof.
+  exact (conj sc_events_wellformed (conj sc_restore_is_suffix (conj restore_stages_keep_state
+          (conj sc_dirty_fields_recomputed sc_no_alias)))).
+Qed.
